@@ -153,7 +153,7 @@ def decorate(behs, rng):
         # gamma variant: CollectFields-equivalent document shapes and resolver attachment styles
         b["_variant"] = {"wrap": rng.choice(["none", "none", "inline", "inline-untyped", "spread", "split"]),
                          "dup": rng.random() < 0.25, "style": rng.choice(["resolver", "resolver", "method"]),
-                         "err": rng.choice(["fresh", "shared", "subclass", "proxy", "completion"]), "crash": rng.choice(["runtime", "runtime", "located", "index"]),
+                         "err": rng.choice(["fresh", "shared", "subclass", "proxy", "completion", "empty"]), "crash": rng.choice(["runtime", "runtime", "located", "index"]),
                          "root": rng.choice(["separate", "separate", "shared"])}
     return behs
 
